@@ -207,6 +207,8 @@ static int g_hello_goaway;         /* error code of a GOAWAY sent while the clie
 
 /* hello = "n0.n1.n2..." (or NULL): sizes of the reads in which the client connection preface, the
  * client's SETTINGS and its SETTINGS ack arrive */
+static int g_noack;               /* the client has not (yet) acknowledged the server's SETTINGS */
+
 static void con_begin(const char *hello) {
     request_st * const h2r = &g_con.request;
     memcpy(&h2r->conf, &g_defconf, sizeof(request_config));
@@ -229,7 +231,7 @@ static void con_begin(const char *hello) {
       "PRI * HTTP/2.0\r\n\r\nSM\r\n\r\n"
       "\x00\x00\x00\x04\x00\x00\x00\x00\x00"
       "\x00\x00\x00\x04\x01\x00\x00\x00\x00";
-    const size_t hlen = sizeof(hello_octets)-1;
+    const size_t hlen = sizeof(hello_octets)-1 - (g_noack ? 9 : 0);
     g_hello_goaway = 0;
     if (NULL == hello) {
         chunkqueue_append_mem(g_con.read_queue, (const char *)hello_octets, hlen);
@@ -268,7 +270,7 @@ static void con_begin(const char *hello) {
             if (call_process()) break;
         if (NULL == g_con.hx) g_hello_goaway = -1;
         else if (((h2con *)g_con.hx)->sent_goaway) g_hello_goaway = ((h2con *)g_con.hx)->sent_goaway;
-        else if (((h2con *)g_con.hx)->sent_settings || !chunkqueue_is_empty(g_con.read_queue)) g_hello_goaway = -2;
+        else if ((!g_noack && ((h2con *)g_con.hx)->sent_settings) || !chunkqueue_is_empty(g_con.read_queue)) g_hello_goaway = -2;
     }
     buffer_clear(g_cap);                       /* drop server preface, SETTINGS ack */
     if (g_peer_ready) lshpack_dec_cleanup(&g_peer);
@@ -439,7 +441,11 @@ int main(void) {
     while (hl_next()) {
         alarm(60);
         if (hl_ntok < 2 || 0 != strcmp(hl_tok[0], "h2b")) { puts("bad-op"); continue; }
-        con_begin(0 == strncmp(hl_tok[1], "hello=", 6) ? hl_tok[1] + 6 : NULL);
+        /* table entries read here: "noack" (first) = no SETTINGS ack in the hello; "hello=<sizes>" */
+        const char *opt = hl_tok[1];
+        g_noack = 0;
+        if (0 == strncmp(opt, "noack", 5)) { g_noack = 1; opt += 5; if (*opt == ';') ++opt; }
+        con_begin(0 == strncmp(opt, "hello=", 6) ? opt + 6 : NULL);
         int first = 1;
         for (int k = 2; k < hl_ntok; ) {
             /* one step: tokens up to the next "q" */
